@@ -203,6 +203,18 @@ BUILT = {
         note='Trusted: TLC, ModQ interpreter. Bounded: 4 (quick) / 7 Pythagorean orientations, 3 / 5 retardances, charges 1..2 / 1..3, 2 / 4 arbitrary matrices; '
              'irrational angles are not evaluated.',
         technique='TLA+ spec (Jones.tla: exact Q(i) matrices, group laws) checked by TLC; exact element matrices replayed into prysm.x.polarization'),
+    'C17': dict(
+        spec='ThinFilm.tla, Gauss.tla, ModQ.tla',
+        text='ThinFilm.tla is the characteristic-matrix calculus in exact Q(i) arithmetic on a Pythagorean family: rational ambient index and sine of incidence, '
+             'layers given by index and the rational cosine of the refracted angle (Snell\'s law checked exactly), phase thicknesses with rational cos and sin, '
+             'the substrate as last entry (layer and exit medium, as in the library), admittances for s and p. TLC checks for every stack of the menu and both '
+             'polarisations: R + T (n_e cos_e)/(n_0 cos_0) = 1, a single interface equals the Fresnel closed forms with r_p = 0 at Brewster\'s angle, a '
+             'zero-thickness layer changes r and t not at all and a half-wave layer leaves R and T unchanged; the pinned fresnel_rp denominator is a variant '
+             'that must violate the Fresnel law. Every state is exported with exact r and t and replayed into multilayer_stack_rt (scalar, and batched shapes '
+             '(3,), (1,3) against the per-element loop), fresnel_rs/ts/rp/tp, snell_aor, brewsters_angle and critical_angle.',
+        note='Trusted: TLC, ModQ interpreter. Bounded: 4 ambient/incidence configurations (normal, two oblique incl. Brewster geometry, ambient 4/3), 4 media each, 5 (6) phase '
+             'thicknesses, <= 1 (2) thin layers plus substrate. Absorbing layers (the R+T<=1 form) are outside the exact family and not covered.',
+        technique='TLA+ spec (ThinFilm.tla: exact characteristic matrices over Q(i)) checked by TLC; exact r, t replayed into prysm.thinfilm'),
 }
 
 NOT_BUILT_REASON = 'not built yet in this round (specification planned in DESIGN.md section 4; never decided by another technique)'
